@@ -19,7 +19,7 @@ def config(T):
         "C15": dict(pkg="c15", fuzz=[dict(name="FuzzPipeline", secs=90), dict(name="FuzzEnvelope", secs=45), dict(name="FuzzHTTP", secs=45)], tests=[T("TestPinned"), T("TestDocuments", 36000, 600000, sq=6, st=16), T("TestBombs", 200, 2000, sq=2, st=4),
                                       T("TestEnvelopes", 600, 20000, sq=2, st=8, race=True), T("TestHTTP", 800, 20000, sq=2, st=4),
                                       T("TestPanicContained", 150, 3000, sq=1, st=4, race=True), T("TestCancellation", 200, 4000, sq=1, st=1), T("TestGatewayCancellation", 150, 3000, sq=1, st=1), T("TestGatewaySiblingFailure", 120, 2000, sq=4, st=8), T("TestPanicPaginated", 600, 8000, sq=2, st=4), T("TestSocketCancellation", 900, 16000, sq=3, st=8, race=True)]),
-        "C16": dict(pkg="c16", tests=[T("TestDirect", 12000, 120000, sq=6, st=12), T("TestSocket", 1800, 12000, sq=6, st=8, race=True), T("TestMutations", 600, 12000, sq=4, st=8, race=True), T("TestPaginatedFailures", 2400, 40000, sq=4, st=8, race=True)]),
+        "C16": dict(pkg="c16", tests=[T("TestDirect", 32000, 240000, sq=8, st=12), T("TestSocket", 1800, 12000, sq=6, st=8, race=True), T("TestMutations", 600, 12000, sq=4, st=8, race=True), T("TestPaginatedFailures", 2400, 40000, sq=4, st=8, race=True)]),
         "C17": dict(pkg="c17", tests=[T("TestPinned"), T("TestStaleCloser"), T("TestLifecycle", 1920, 24000, sq=8, st=16, race=True)]),
         "C18": dict(pkg="c18", fuzz=[dict(name="FuzzArgs", secs=45), dict(name="FuzzArgsNegative", secs=30)], tests=[T("TestArgs", 24000, 400000, sq=6, st=16), T("TestArgsNegative", 12000, 100000, sq=4, st=8)]),
         "C19": dict(pkg="c19", fuzz=[dict(name="FuzzDirectives", secs=45)], tests=[T("TestPinned"), T("TestDirectives", 12000, 160000, sq=8, st=16), T("TestDirectivesGateway", 240, 4000, sq=6, st=8, pkg="c06")]),
